@@ -99,6 +99,19 @@ def gen(tier, seed, info):
                 for tail in ["G10 G10", "G10 G12 G10", "G12 c1 G10"]:
                     nch += 1
                     yield "WS cb1=%s cb2=%s cb3=- %s %s" % (b1, b2, regs, tail)
+    # ---- IO cases (coq/LoopIo.v): the dispatch of ready descriptors through the default loop's slot arrays while
+    #      callbacks cancel (own / a later slot's / an earlier slot's watch) and register (reusing a freed slot)
+    nio = 0
+    ibody = ["-", "c0", "c1", "c2", "wi0:1:0:3", "wi1:1:6:3", "c1,wi1:1:0:3", "c2,wi0:1:2:3", "wi1:1:0:3,c0", "c0,c1"]
+    for regs in ["wi0:1:0:1 wi1:1:2:2", "wi0:1:2:1 wi1:1:6:2 wi0:1:0:2", "wi1:1:1:2 wi0:1:0:1 wi1:1:6:1"]:
+        for b1 in ibody:
+            for b2 in ["-", "c0", "c2", "wi0:1:0:3"]:
+                for tail in ["R0:1 R1:1 r0 R0:1 R1:1 r0", "R1:1 r0 R0:1 r0 R0:1 R1:1 r0", "R0:1 r0 c1 R0:1 R1:1 r0",
+                             "r0 c0 wi0:1:4:3 R0:1 R1:1 r0"]:
+                    nio += 1
+                    yield "WI cb1=%s cb2=%s cb3=- %s %s" % (b1, b2, regs, tail)
+    info["io_cases"] = nio
+    n += nio
     info["chain_cases"] = nch
     n += nch
     # ---- cancel whose UNBIND notification registers a replacement (re-entrancy of tickit_watch_cancel)
@@ -230,7 +243,7 @@ def classify(case, obs):
 
 def shrink(case):
     toks = case.split()
-    keep = 1 if toks and toks[0] in ("WP", "WS") else 0      # the model selector is not a shrinkable token
+    keep = 1 if toks and toks[0] in ("WP", "WS", "WI") else 0      # the model selector is not a shrinkable token
     for i in range(keep, len(toks)):
         yield " ".join(toks[:i] + toks[i + 1:])
     for i, t in enumerate(toks):
